@@ -1,6 +1,7 @@
 //! mv — library part: reference models, generators, monitors (shared by the `mv` binary and the fuzz targets).
 pub mod alloc;
 pub mod evidence;
+pub mod fuzzing;
 pub mod mon;
 pub mod plan;
 pub mod refstf;
